@@ -173,6 +173,15 @@ pub fn hash12(input: &str) -> String {
     format!("{:x}", Sha256::digest(input.as_bytes()))[..12].to_string()
 }
 
+/// JA4 hash part: the 12-character hash, or `000000000000` when the list is empty
+fn hash12_or_zeros(raw: &str) -> String {
+    if raw.is_empty() {
+        "000000000000".to_string()
+    } else {
+        hash12(raw)
+    }
+}
+
 impl Signature {
     /// Generate JA4 fingerprint according to official FoxIO specification
     /// Returns sorted version by default
@@ -265,8 +274,9 @@ impl Signature {
         };
 
         // Generate hashes for JA4_b and JA4_c (first 12 characters of SHA256)
-        let ja4_b_hash = hash12(&ja4_b_raw);
-        let ja4_c_hash = hash12(&ja4_c_raw);
+        // An empty list is represented by twelve zeros, not by the hash of the empty string
+        let ja4_b_hash = hash12_or_zeros(&ja4_b_raw);
+        let ja4_c_hash = hash12_or_zeros(&ja4_c_raw);
 
         // JA4 hashed: ja4_a + "_" + ja4_b_hash + "_" + ja4_c_hash
         let ja4_hashed = format!("{ja4_a}_{ja4_b_hash}_{ja4_c_hash}");
